@@ -68,3 +68,112 @@ package fastaio
 //@   after call:Write#3: do lines++
 //@   ensures [c19.reported] implies(failed(w), len(sent(cerr)) >= 1)
 //@   ensures [c12.done] len(sent(cdone)) == 1
+
+//@ # C16 (no panic / strict / scoring) – safety sweep plus the scoring invariants.
+//@ # Ghost variables are the specification's state over the lines read so far: hdrs = header lines (non-blank lines
+//@ # starting with '>'); gLen/gScore/gA/gC/gG/gT = length, completeness score (12 / number of denoted bases per symbol,
+//@ # from spec/iupac.spec) and A/C/G/T counts of the sequence text since the last header.
+//@ func ReadEncodeScoreAlignment
+//@   modifies chnl, cErr, cDone
+//@   ghost hdrs int = 0
+//@   ghost gLen int = 0
+//@   ghost gScore int = 0
+//@   ghost gA int = 0
+//@   ghost gC int = 0
+//@   ghost gG int = 0
+//@   ghost gT int = 0
+//@   ghost gWidth int = 0
+//@   loop 1:
+//@     invariant len(sent(cErr)) == 0 && len(sent(cDone)) == 0
+//@     invariant hdrs >= 0 && first == (hdrs == 0) && counter == ite(hdrs == 0, 0, hdrs - 1) && len(sent(chnl)) == counter
+//@     invariant len(seqBuffer) == gLen && score == gScore && counting[136] == gA && counting[40] == gC && counting[72] == gG && counting[24] == gT
+//@     invariant implies(counter > 0, width == gWidth)
+//@     invariant forall(j, 0, len(seqBuffer), isCode(seqBuffer[j]))
+//@     invariant forall(t, 0, counter, sent(chnl)[t].Idx == t && len(sent(chnl)[t].Seq) == gWidth)
+//@   loop 3:
+//@     invariant len(sent(cErr)) == 0 && len(sent(cDone)) == 0 && len(sent(chnl)) == counter
+//@     invariant len(seqBuffer) + i == gLen && score == gScore && counting[136] == gA && counting[40] == gC && counting[72] == gG && counting[24] == gT
+//@     invariant len(encodedLine) == len(line) && forall(j, 0, i, isCode(encodedLine[j]))
+//@     do-end gLen++; gScore += specScore(line[i], hardGaps); if upper(line[i]) == 'A' { gA++ }; if upper(line[i]) == 'C' { gC++ }; if upper(line[i]) == 'G' { gG++ }; if upper(line[i]) == 'T' { gT++ }
+//@   after call:Bytes#1: do if len(line) > 0 && line[0] == '>' { hdrs++ }
+//@   before send#4: assert [record] fr.Idx == hdrs - 2 && len(fr.Seq) == gLen && fr.Score == gScore && fr.Count_A == gA && fr.Count_C == gC && fr.Count_G == gG && fr.Count_T == gT && forall(j, 0, len(fr.Seq), isCode(fr.Seq[j]))
+//@   after send#4: do if hdrs == 2 { gWidth = gLen }; gLen = 0; gScore = 0; gA = 0; gC = 0; gG = 0; gT = 0
+//@   before send#8: assert [lastrecord] fr.Idx == hdrs - 1 && len(fr.Seq) == gLen && fr.Score == gScore && fr.Count_A == gA && fr.Count_C == gC && fr.Count_G == gG && fr.Count_T == gT && forall(j, 0, len(fr.Seq), isCode(fr.Seq[j]))
+//@   ensures [c18.exclusive] len(sent(cErr)) + len(sent(cDone)) == 1
+//@   ensures [strict.count] implies(len(sent(cErr)) == 0, len(sent(chnl)) == hdrs && hdrs >= 1)
+//@   ensures [idx] forall(t, 0, len(sent(chnl)), sent(chnl)[t].Idx == t)
+//@ # the same specification state machine (hdrs, gLen, gWidth) is the contract of every reader, so they agree with one
+//@ # another: record k has Idx k, its Seq is the table image of the sequence text (per line: encodedLine[j] ==
+//@ # coding[line[j]] != 0) of length gLen, all records have the first record's width, one record per header, exactly one
+//@ # of {error, done}.
+//@ func ReadEncodeAlignment
+//@   modifies chnl, cErr, cDone
+//@   ghost hdrs int = 0
+//@   ghost gLen int = 0
+//@   ghost gWidth int = 0
+//@   loop 1:
+//@     invariant len(sent(cErr)) == 0 && len(sent(cDone)) == 0
+//@     invariant hdrs >= 0 && first == (hdrs == 0) && counter == ite(hdrs == 0, 0, hdrs - 1) && len(sent(chnl)) == counter
+//@     invariant len(seqBuffer) == gLen && implies(counter > 0, width == gWidth)
+//@     invariant forall(j, 0, len(seqBuffer), isCode(seqBuffer[j]))
+//@     invariant forall(t, 0, counter, sent(chnl)[t].Idx == t && len(sent(chnl)[t].Seq) == gWidth)
+//@   loop 2:
+//@     invariant len(sent(cErr)) == 0 && len(sent(cDone)) == 0 && len(sent(chnl)) == counter
+//@     invariant len(seqBuffer) + i == gLen && len(encodedLine) == len(line)
+//@     invariant forall(j, 0, i, isCode(encodedLine[j]) && encodedLine[j] == coding[line[j]])
+//@     do-end gLen++
+//@   after call:Bytes#1: do if len(line) > 0 && line[0] == '>' { hdrs++ }
+//@   before send#4: assert [record] fr.Idx == hdrs - 2 && len(fr.Seq) == gLen && forall(j, 0, len(fr.Seq), isCode(fr.Seq[j]))
+//@   after send#4: do if hdrs == 2 { gWidth = gLen }; gLen = 0
+//@   before send#8: assert [lastrecord] fr.Idx == hdrs - 1 && len(fr.Seq) == gLen && forall(j, 0, len(fr.Seq), isCode(fr.Seq[j]))
+//@   ensures [c18.exclusive] len(sent(cErr)) + len(sent(cDone)) == 1
+//@   ensures [strict.count] implies(len(sent(cErr)) == 0, len(sent(chnl)) == hdrs && hdrs >= 1)
+//@   ensures [idx] forall(t, 0, len(sent(chnl)), sent(chnl)[t].Idx == t)
+
+//@ func ReadEncodeAlignmentToList
+//@   ghost hdrs int = 0
+//@   ghost gLen int = 0
+//@   ghost gWidth int = 0
+//@   loop 1:
+//@     invariant hdrs >= 0 && first == (hdrs == 0) && counter == ite(hdrs == 0, 0, hdrs - 1) && len(records) == counter
+//@     invariant len(seqBuffer) == gLen && implies(counter > 0, width == gWidth)
+//@     invariant forall(j, 0, len(seqBuffer), isCode(seqBuffer[j]))
+//@     invariant forall(t, 0, counter, records[t].Idx == t && len(records[t].Seq) == gWidth && records[t].Count_A == 0 && records[t].Count_C == 0 && records[t].Count_G == 0 && records[t].Count_T == 0)
+//@   loop 2:
+//@     invariant len(records) == counter
+//@     invariant len(seqBuffer) + i == gLen && len(encodedLine) == len(line)
+//@     invariant forall(j, 0, i, isCode(encodedLine[j]) && encodedLine[j] == coding[line[j]])
+//@     do-end gLen++
+//@   after call:Bytes#1: do if len(line) > 0 && line[0] == '>' { hdrs++ }
+//@   before append#1: assert [record] fr.Idx == hdrs - 2 && len(fr.Seq) == gLen && forall(j, 0, len(fr.Seq), isCode(fr.Seq[j]))
+//@   after append#1: do if hdrs == 2 { gWidth = gLen }; gLen = 0
+//@   before append#3: assert [lastrecord] fr.Idx == hdrs - 1 && len(fr.Seq) == gLen && forall(j, 0, len(fr.Seq), isCode(fr.Seq[j]))
+//@   ensures [strict.count] implies(result2 == nil, len(result1) == hdrs && hdrs >= 1)
+//@   ensures [idx] implies(result2 == nil, forall(t, 0, len(result1), result1[t].Idx == t && result1[t].Count_A == 0 && result1[t].Count_C == 0 && result1[t].Count_G == 0 && result1[t].Count_T == 0))
+//@   ensures [error.empty] implies(result2 != nil, len(result1) == 0)
+
+//@ func ReadAlignment
+//@   modifies chnl, cErr, cdone
+//@   ghost hdrs int = 0
+//@   ghost gLen int = 0
+//@   ghost gWidth int = 0
+//@   loop 1:
+//@     invariant len(sent(cErr)) == 0 && len(sent(cdone)) == 0
+//@     invariant hdrs >= 0 && first == (hdrs == 0) && counter == ite(hdrs == 0, 0, hdrs - 1) && len(sent(chnl)) == counter
+//@     invariant len(seqBuffer) == gLen && implies(counter > 0, width == gWidth) && implies(hdrs == 0, gLen == 0)
+//@     invariant forall(t, 0, counter, sent(chnl)[t].Idx == t && len(sent(chnl)[t].Seq) == gWidth)
+//@   after call:Text#1: do if len(line) > 0 && line[0] == '>' { hdrs++ } else { if hdrs > 0 { gLen += len(line) } }
+//@   before send#4: assert [record] fr.Idx == hdrs - 2 && len(fr.Seq) == gLen
+//@   after send#4: do if hdrs == 2 { gWidth = gLen }; gLen = 0
+//@   before send#7: assert [lastrecord] fr.Idx == hdrs - 1 && len(fr.Seq) == gLen
+//@   ensures [c18.exclusive] len(sent(cErr)) + len(sent(cdone)) == 1
+//@   ensures [strict.count] implies(len(sent(cErr)) == 0, len(sent(chnl)) == hdrs && hdrs >= 1)
+//@   ensures [idx] forall(t, 0, len(sent(chnl)), sent(chnl)[t].Idx == t)
+
+//@ func getAlignmentDims
+//@   ghost hdrs int = 0
+//@   ghost gLen int = 0
+//@   loop 1:
+//@     invariant n == hdrs && l == gLen && hdrs >= 0
+//@   after call:Text#1: do if len(line) > 0 && line[0] == '>' { hdrs++ } else { if hdrs == 1 { gLen += len(line) } }
+//@   ensures implies(result3 == nil, result1 == hdrs && result2 == gLen)
